@@ -115,6 +115,7 @@ def menu():
         ('PD.ase', lambda I: d.PD(I['opt2'], 2e9, r=0.5, R_load=100.0, include_noise='ase-only'), True),
         ('ADC.v', lambda I: d.ADC(I['rx'], n=4), True),
         ('ADC.n', lambda I: d.ADC(I['vnd'], n=3, otype='n'), True),
+        ('ADC.noisy', lambda I: d.ADC(I['v'], n=5), True),
         ('SAMPLER', lambda I: d.SAMPLER(I['v'], 4), True),
         ('PPM_ENC', lambda I: ppm.PPM_ENCODER(I['ppm_bits'], 4), True),
         ('PPM_DEC', lambda I: ppm.PPM_DECODER(ppm.PPM_ENCODER(I['bseq'], 8), 8), True),
